@@ -135,6 +135,11 @@ def valid_problems(tier):
         ("grouped-mixed", "o1 - t1 o2 o5 - t2 o3 - t3", {"o1": "t1", "o2": "t2", "o5": "t2", "o3": "t3"}),
         ("object-first", "u1 - object o1 - t1 u2 - object o2 - t2", {"u1": "object", "o1": "t1", "u2": "object", "o2": "t2"}),
         ("object-grouped-first", "u1 u2 - object o1 o4 - t1", {"u1": "object", "u2": "object", "o1": "t1", "o4": "t1"}),
+        ("alternating", "o1 - t1 o3 - t3 o4 - t1 o2 - t2 o6 - t3 o5 - t2",
+         {"o1": "t1", "o3": "t3", "o4": "t1", "o2": "t2", "o6": "t3", "o5": "t2"}),
+        ("alternating-with-object", "u1 - object o1 - t1 u2 o4 - t1 u3",
+         {"u1": "object", "o1": "t1", "u2": "t1", "o4": "t1", "u3": "object"}),
+        ("names", "o1 - t1 o11 - t2 o1-b - t1 o_1 - t3 o-1 - t1", {"o1": "t1", "o11": "t2", "o1-b": "t1", "o_1": "t3", "o-1": "t1"}),
         ("empty", "", {}),
     ):
         for atoms_sel in ([], [["m", n] for n in objs], [["r"]]):
